@@ -51,7 +51,7 @@ def run_assign(shard, tier, seed):
         def state():
             s_ = lib.call(e.to_string)
             return (repr(e.value_), sorted((k, repr(v)) for k, v in e.attributes.items()), s_[1] if s_[0] == 'ok' else type(s_[1]).__name__)
-        for what, key, bads in [('value', 'value_', [object(), [], {'a': 1}, b'x', 'x' * 3 + '\x00no', -987654321.5, '@@bad@@'])] + \
+        for what, key, bads in [('value', 'value_', [None, object(), [], {'a': 1}, b'x', 'x' * 3 + '\x00no', -987654321.5, '@@bad@@', None])] + \
                 [('attribute', an.replace('-', '_'), [object(), [], '@@bad@@', -987654321.5])
                  for an, at, req in (ref.attr_table(t) if t in ref.ALL else ()) if at is not None and an != 'name'][:6]:
             for bad in bads:
